@@ -21,6 +21,9 @@ type Model struct {
 	JWS      []envcodec.Member
 	COSE     []envcodec.KV
 	Payload  []byte
+	ExtraTop []envcodec.Member // JWS: additional top-level members (unsigned)
+	ExtraHdr []envcodec.Member // JWS: additional members of the unprotected header
+	ExtraUnp []envcodec.KV     // COSE: additional unprotected header entries
 	EmptySig bool
 	BreakSig bool // a correctly computed signature with one bit flipped
 	Chain    *pki.Chain
@@ -244,7 +247,7 @@ func (m *Model) Build() ([]byte, error) {
 		chain = sims.ChainDER(m.Chain.Certs)
 	}
 	if m.MT == sims.JWS {
-		b := &envcodec.JWSBuild{Prot: m.JWS, Payload: m.Payload, Chain: chain, Alg: m.SignAlg, Key: m.Chain.Keys[0].Priv}
+		b := &envcodec.JWSBuild{Prot: m.JWS, Payload: m.Payload, Chain: chain, Alg: m.SignAlg, Key: m.Chain.Keys[0].Priv, ExtraTop: m.ExtraTop, ExtraHdr: m.ExtraHdr}
 		if m.NoChain {
 			b.Chain = nil
 		}
@@ -266,6 +269,7 @@ func (m *Model) Build() ([]byte, error) {
 	if !m.NoChain {
 		b.Unprot = []envcodec.KV{{K: envcodec.Int(envcodec.CX5Chain), V: envcodec.X5Chain(chain)}}
 	}
+	b.Unprot = append(b.Unprot, m.ExtraUnp...)
 	if m.EmptySig {
 		b.Sig = []byte{}
 	}
